@@ -424,7 +424,24 @@ def probes(s, limit=40, depth=0):
                         q = _fresh(p)
                         q.setdefault(k, 1)
                         out.append(q)
+    # sizes beyond anything else here: long arrays (with and without a duplicate far apart), many members, long
+    # strings -- for code that changes its method above some size
+    wide_keys = [k for k in (list((s.get("properties") or {})) if isinstance(s.get("properties"), dict) else []) if k.startswith("w")]
+    req = [k for k in (s.get("required") if isinstance(s.get("required"), list) else []) if isinstance(k, str)]
+    big = []
+    if any(k in s for k in arrk) or "array" in h["types"] or isinstance(s.get("enum"), list) and len(s["enum"]) > 8:
+        big += [list(range(40)), list(range(20)) + [0.0] + list(range(20, 30)), [[i] for i in range(12)] + [[3]], ["s%d" % i for i in range(33)]]
+    if any(k in s for k in objk) or "object" in h["types"] or wide_keys or len(req) > 3:
+        names = _uniq_strs(req + wide_keys + ["w%d" % i for i in range(24)])
+        big += [dict((k, i) for i, k in enumerate(names)), dict((k, "s") for k in names[:len(names) // 2]),
+                dict((k, i) for i, k in enumerate(names[1:]))]
+    if any(k in s for k in ("minLength", "maxLength", "pattern", "format")) or "string" in h["types"]:
+        big += ["a" * 300, "ab" * 33 + "\U0001F600"]
+    if isinstance(s.get("enum"), list) and len(s["enum"]) > 8:
+        big += [_fresh(e) for e in s["enum"][-3:]] + [19.0, "s7", False, 1]
     out = [x for x in _uniq_typed(out) if _finite(x)]
+    if big:
+        out = out[:max(0, limit - len(big))] + big
     fixed = [f for f in FIXED_PROBES]
     res = out[:limit] + fixed[:max(6, limit - len(out))]
     return _uniq_typed(res)[:limit + 6]
